@@ -53,7 +53,7 @@ stats = {"gen_cases": 0, "gen_miss": 0, "wf_ok": 0, "wf_ok_roundtrip": 0, "print
          "corpus_model_agree": 0, "float_fmt": 0, "float_parse": 0, "opcodes_seen": {}, "item_kinds": {},
          "operand_kinds": {}, "error_kinds": {}, "corpus_nonfinite_float": 0, "temp_counter_checked": 0,
          "temp_counter_nonzero": 0, "temp_counter_agree": 0, "api_lc_clash": 0, "reread_loaded_linked": 0,
-         "lc_named_cases": 0, "reg_name_collisions": {}}
+         "lc_named_cases": 0, "reg_name_collisions": {}, "concat": 0, "concat_agree": 0}
 distinct = set()
 
 
@@ -716,6 +716,45 @@ def run_freeform(rng, cases, impl):
         ck.sample({"free_form_text": texts[0][1].decode("latin1")[:700]})
 
 
+def run_concat(rng, cases, impl):
+    """several written texts in ONE MIR_scan_string call: the texts of separate contexts put one after the other (each
+    numbers its labels from L1, and generated names repeat too).  Labels, registers and items are scoped by
+    function / module, so the whole must be read exactly when every part is, as the same modules in the same order."""
+    pool = []
+    for (cid, lines, mods, probe) in cases:
+        im = impl.get(cid, {})
+        if probe is None and not has_kind(mods, "expr") and im.get("scan1", "").startswith("ok") and \
+                im.get("text1") is not None and im.get("text2") == im["text1"]:
+            pool.append((cid, im["text1"], re.search(rb"^L\d+:", im["text1"], re.M) is not None))
+    labelled = [p for p in pool if p[2]]
+    texts, parts = [], {}
+    if pool:
+        for i in range(60 if QUICK else 1500):
+            k = 2 + (1 if rng.chance(1, 4) else 0)
+            pick = [rng.choice(labelled if labelled and (j < 2 and rng.chance(3, 4)) else pool) for j in range(k)]
+            if rng.chance(1, 6):
+                pick[1] = pick[0]                    # the same text twice
+            cid = "cat%d" % i
+            texts.append((cid, b"".join(p[1] for p in pick)))
+            parts[cid] = [p[0] for p in pick]
+    hs, ms = compare_scans("concatenation", texts, "concat", "concat_agree")
+    shared = 0
+    for (cid, t) in texts:
+        h, m = hs.get(cid, {}), ms.get(cid, {})
+        defs = re.findall(rb"^(L\d+):", t, re.M)
+        if len(defs) != len(set(defs)):
+            shared += 1
+        if "ok" not in h and "ok" in m and "crash" not in h:
+            ck.violation({"input": {"kind": "text", "text": t.decode("latin1")}, "impl_output": h.get("err"),
+                          "model_output": "accepted", "parts": parts[cid],
+                          "spec_verdict": "each part is a text written by MIR_output that MIR_scan_string reads on its own; "
+                                          "names are scoped by module, so the parts one after the other must be read too"},
+                         what="texts that are read one by one are rejected when given in one MIR_scan_string call: " +
+                              h.get("err", "?")[:120], signature="C10:concatenated-texts-rejected")
+    stats["concat_shared_label_names"] = shared
+    ck.stage("concatenation", texts=len(texts), agree=stats["concat_agree"], with_equal_label_names_in_two_modules=shared)
+
+
 def mutate(rng, t):
     b = bytearray(t)
     for _ in range(1 + rng.below(3)):
@@ -893,8 +932,12 @@ def replay_one(path, table):
     elif inp.get("kind") in ("text", "text-file"):
         t = (open(os.path.join(REPO, inp["file"]), "rb").read() if inp.get("kind") == "text-file" and os.path.exists(os.path.join(REPO, inp.get("file", "")))
              else inp.get("text", "").encode("latin1"))
-        compare_scans("replay", [("r", t)], "freeform", "freeform_agree")
+        (_, rm) = compare_scans("replay", [("r", t)], "freeform", "freeform_agree")
         a = harness_scan([("r", t)]).get("r", {})
+        if "ok" not in a and "ok" in rm.get("r", {}) and d.get("signature") == "C10:concatenated-texts-rejected":
+            ck.violation({"input": inp, "impl_output": a.get("err", a.get("crash")), "model_output": "accepted"},
+                         what="replayed text (texts written by MIR_output, one after the other) is rejected",
+                         signature=d.get("signature"))
         if "ok" in a:
             b = harness_scan([("r", a["ok"])]).get("r", {})
             if not ("ok" in b and b["ok"] == a["ok"]):
@@ -922,10 +965,11 @@ cases, impl = run_generated(ck.rng, table)
 if not QUICK:
     run_assert_flavour(cases, impl)
 run_freeform(ck.rng, cases, impl)
+run_concat(ck.rng, cases, impl)
 run_text_mutants(ck.rng, cases, impl)
 run_corpus(ck.rng)
 
-ck.cov["evaluations"] = (stats["gen_cases"] + stats["freeform"] + stats["mutants_text"] + stats["corpus_files"]
+ck.cov["evaluations"] = (stats["gen_cases"] + stats["freeform"] + stats["concat"] + stats["mutants_text"] + stats["corpus_files"]
                          + stats["float_fmt"] + stats["float_parse"])
 ck.cov["distinct_nontrivial"] = len(distinct)
 ck.cov["rule"] = ("modules generated from the instruction table of the tree (every item kind, operand form, block "
